@@ -168,21 +168,21 @@ class Run(object):
     def require(self, *counters):
         self.required.extend(counters)
 
-    def pmap(self, fname, shards, workers=None):
+    def pmap(self, fname, shards, workers=None, module=None, fork=False):
         """Run mod.<fname>(P, *shard) for every shard in worker processes (fork) and
         merge the parts.  A dead worker raises (BrokenProcessPool) -> inconclusive."""
         shards = list(shards)
         if not shards:
             return
         workers = min(workers or MAXW, len(shards))
-        args = [(self.mod.__name__, fname, tuple(s), self.mutant) for s in shards]
-        if workers <= 1:
+        args = [(module or self.mod.__name__, fname, tuple(s), self.mutant) for s in shards]
+        if workers <= 1 and not fork:
             for a in args:
                 self.P.merge(_shard_entry(a))
             return
         ctx = multiprocessing.get_context("fork")
         try:
-            with concurrent.futures.ProcessPoolExecutor(max_workers=workers, mp_context=ctx) as ex:
+            with concurrent.futures.ProcessPoolExecutor(max_workers=max(1, workers), mp_context=ctx) as ex:
                 for part in ex.map(_shard_entry, args):
                     self.P.merge(part)
         except concurrent.futures.process.BrokenProcessPool as e:
